@@ -83,7 +83,7 @@ pub fn run(a: &Args) -> i32 {
     let mut rep = Report::new(
         "C06",
         a,
-        "random valid (schema, document) pairs (type-directed generator: objects, interfaces, unions, fragments incl. nested/recursive, inline fragments, aliases) x 22 invalidating edits (rule catalogue of the property) x every applicable selection-set position (operation / fragment, object / interface / union parent, nesting depth, under inline fragments); a case = one edited document run through generate_module_token_stream_from_string; non-trivial = the edit was applied below the root selection set or inside a fragment; distinct by (schema, edited document text)",
+        "random valid (schema, document) pairs (type-directed generator: objects, interfaces, unions, fragments incl. nested/recursive, inline fragments, aliases) x 23 invalidating edits (rule catalogue of the property) x every applicable selection-set position (operation / fragment, object / interface / union parent, nesting depth, under inline fragments); a case = one edited document run through generate_module_token_stream_from_string; non-trivial = the edit was applied below the root selection set or inside a fragment; distinct by (schema, edited document text)",
     );
     let mut rng = Rng::new(a.seed);
     let mut ctx = CaseCtx::new();
@@ -180,6 +180,8 @@ pub fn run(a: &Args) -> i32 {
             }
         }
     }
+    // an operation is judged against the schema FILE the path denotes (one process, several schema paths, `..` after a symlink)
+    super::wire::path_entry_sequence(&mut rep, &ctx);
     rep.extra.insert("model_requests".into(), json!(ctx.model.requests));
     rep.finish()
 }
